@@ -51,6 +51,45 @@ CLAIMS.update({
  "C16": ("proof", "Panic-freedom of the parts function contracts can reach: Kani proves the constant folder never panics on literal operands (all operators, kind pairs, values); Verus proves number_from_string, the usize conversion of literals and scopes_since_loop free of panics (every unwrap/expect/unreachable!/slice/subtraction is an obligation). Known finding D25 (empty fixed-shape list index) is reported as such. pest, recursion depth and untranslated AST builders are NOT decided. Parser::function_parameters (self first), Expr::for_type operand shapes for op-assign and ?=.", "4.C16", TECH_K + "; " + TECH_V,
          "claimed only for the listed helper functions; totality over arbitrary source text is not decided"),
 })
+
+# additions of the later rounds (appended to the claim text) and refreshed caveats
+MORE = {
+ "C01": " Function::compile (parameter prologue, layout); handlers ret / store / store_fast / load_fast / assert; scope predicates a change adds are carried along with their own body as contract.",
+ "C02": " Also: is_numeric; the return-statement table; element / field assignment only of a fitting value; typing of `get` (also on a captured variable) and `or`.",
+ "C03": " Also: return against the declared type; element / field assignment; a constant index that is no position is a diagnostic (Value::get_usize).",
+ "C04": " The loader's record loop (MScriptFile::get_functions, body of the loop): per record form the writer emits, exactly its effect on the loader state; no well-formed record skipped, later definition wins, buffer emptied. run / execute have the same default stack size (constant equality).",
+ "C06": " The run-time operator obligations of C05 are part of this check (the other side of the agreement).",
+ "C07": " Dependencies of every statement kind incl. the place an element / field assignment writes through; list.map / filter bridges keep and pass on the callback's captured variables.",
+ "C08": " ptr_mut: exactly one write of exactly the value through exactly the pointer, unconditionally; ret / store hand on values.",
+ "C10": " Unpacking: every name looked up, const or not; element / field assignment: the path's const flag is the root variable's (also captured) and a const path is rejected.",
+ "C11": " Compile-time export list: a variable (type_from_node) and a class (ModuleType::from_node declaration loop) enter it only when that declaration says export; the const-flag obligations that stop an importer's writes are part of this check.",
+ "C12": " Typing of `get x` and `(x) or y` with the real is_optional / get_type_recursively / disregard_distractors; no compiler panic in the typing of `or`.",
+ "C13": " A run-time index is the number it denotes or fails (try_into_numeric_index); element / entry assignment (ptr_mut).",
+ "C14": " Float parts by VALUE (integer-valued, on the stated side of x, less than 1 away); index_of (first occurrence, byte position).",
+ "C15": " Constant folding never drops an operand that is not itself a constant; the value of the left operand of && / || decides also through a pointer.",
+ "C16": " Value::get_usize, try_coerce_to_open on an empty list, typing of `or` without assert_eq!.",
+ "C17": " Function::run step: an error coming out of a called function (directly or under a list callback) is returned itself, not a re-worded one; try_into_numeric_index fails instead of wrapping; assert handler.",
+ "C18": " The loader's record loop (shared with C04): every record kind incl. whitespace-valued opcodes.",
+ "C19": " A failing foreign call's error reaches the caller unchanged (run step).",
+}
+NOTES = {
+ "C02": "the native operator table, the run-time operators and the listed parser functions; the non-list arms of eq_complex and soundness as one composed theorem are not decided",
+ "C03": "pest API, lookups and sub-parsers abstract; diagnostics' position text and unknown-name faults are not decided",
+ "C06": "numerals abstracted to their value (String -> value-carrying shim); machine * / % abstracted to uninterpreted deterministic operations shared with the spec; string / bool folding not covered",
+ "C10": "class fields, the postfix steps of an assignment path and the marking of class / import idents as const are not under contract; scope push/pop discipline assumed",
+ "C11": "RefCell<HashMap> as &mut finite map; the compile queue and path spelling are not covered",
+ "C13": "gc/RefCell/std::Vec semantics assumed; keys/values/pairs order, then/finish of the bridges and composition over operation histories not covered",
+ "C14": "K-t extraction of match arms; parse_*, sqrt/pow, replace, contains, chars not covered",
+ "C15": "recursive compile_depth calls assumed to satisfy the same register frame contract; index / method-call receivers not covered",
+ "C17": "as C05/C14; the text of Program::execute's report and process exit status are not covered",
+ "C19": "libloading and the dylib ABI assumed; the error report text not covered",
+ "C08": "gc cell semantics assumed; make_object / call_object / ld_self and method-call chains (DotChain::compile) not under contract",
+ "C04": "strings as char sequences (UTF-8 layer not modelled); the loop around the record step and malformed records are not covered; std contracts assumed; rule table",
+}
+for k, extra in MORE.items():
+    c = list(CLAIMS[k]); c[1] = c[1].rstrip().replace(" Statement-level typing checks of the parser are not yet under contract.", "") + extra; CLAIMS[k] = tuple(c)
+for k, n in NOTES.items():
+    c = list(CLAIMS[k]); c[4] = n; CLAIMS[k] = tuple(c)
 PENDING = {}
 props = [json.loads(l)["id"] for l in (V / "properties.jsonl").read_text().splitlines() if l.strip()]
 checks = []
